@@ -23,6 +23,7 @@ structure KeyGT where
   alg : Bytes
   size : Option Nat
   curve : Bytes
+  created : Bytes        -- the creation date in the key packet itself
 structure IdGT where
   name : Bytes
   usage : Bytes
@@ -41,8 +42,8 @@ structure GT where
   alt : Option (Bytes × Bytes × Bytes) := none  -- (usage, created, expires) of another, untouched self-signature of the same identity
 
 def keyGT : P KeyGT := do
-  let fp ← tok; let kid ← tok; let alg ← hexTok; let size ← tok; let curve ← hexTok
-  pure { fp := strBytes fp, keyId := strBytes kid, alg := alg, size := size.toNat?, curve := curve }
+  let fp ← tok; let kid ← tok; let alg ← hexTok; let size ← tok; let curve ← hexTok; let created ← hexTok
+  pure { fp := strBytes fp, keyId := strBytes kid, alg := alg, size := size.toNat?, curve := curve, created := created }
 
 def repeatP {α} (p : P α) : Nat → P (List α)
   | 0 => pure []
@@ -82,6 +83,8 @@ def checkKey (as : List Attr) (k : KeyGT) : Option String :=
   else if val as "Algorithm" ≠ [k.alg] then some "algorithm differs"
   else if (match k.size with | some n => val as "Size" != [natToDec n ++ strBytes " bits"] | none => !(val as "Size").isEmpty) then some "size differs from the key's"
   else if (if k.curve.isEmpty then false else val as "Curve" ≠ [k.curve]) then some "curve differs"
+  else if val as "Created" ≠ [k.created] then
+    some "creation date is not the one in the key packet (absent, taken from the signature that binds the key now, or shown more than once)"
   else none
 
 def firstSome : List (Option String) → Option String
@@ -113,7 +116,6 @@ def holdsExact (g : GT) (i : Info) : String :=
         match (subKids.zip g.subs).findSome? (fun (c, sg) =>
           firstSome [checkKey c.attrs sg.key,
             if val c.attrs "Usage" ≠ [sg.usage] then some "usage flags of a subkey differ" else none,
-            if val c.attrs "Created" ≠ [sg.created] then some "creation date of a subkey binding differs (UTC)" else none,
             if val c.attrs "Expires" ≠ [sg.expires] then some "subkey expiry is not subkey creation time plus lifetime (or never)" else none]) with
         | some e => "FAILS subkey: " ++ e
         | none => "holds"
